@@ -653,7 +653,10 @@ func predCLI(c Case) (r Result) {
 	expectOK := false
 	reason := ""
 	switch {
-	case cerr != nil:
+	case cerr != nil && !(jerr == nil && lib.Panic == nil && lib.Err == nil):
+		// (when the one-shot Search evaluates the expression, its verdict counts: "prints exactly
+		// the value the library's Search returns" - a Compile that refuses more than Search does
+		// is no excuse for jpgo)
 		reason = "syntax-error"
 	case invalidByGrammar:
 		reason = "invalid-expression"
@@ -748,7 +751,7 @@ func TestC19(t *testing.T) {
 		case 2:
 			expr = errSeeds[rapid.IntRange(0, len(errSeeds)-1).Draw(t, "seed")].expr
 		case 3:
-			expr = []string{"avg(`[]`)", "to_number('inf')", "sum(`[1e308,1e308]`)", "-1", "-", "--", "-ast", "-input", "", " ", "a\nb", "'é'", "\"é\"", "@", "`\"x\"`"}[rapid.IntRange(0, 14).Draw(t, "special")]
+			expr = []string{"avg(`[]`)", "to_number('inf')", "sum(`[1e308,1e308]`)", "-1", "-", "--", "-ast", "-input", "", " ", "a\nb", "'é'", "\"é\"", "@", "`\"x\"`", "`1` || nosuch(@)", "a || nosuch(@)", "`[]`[*].lenght(@)", "`false` && undefined_fn(a, b)", "a[?size(@) > `1`]", "avg(`[1e308,1e308]`)"}[rapid.IntRange(0, 20).Draw(t, "special")]
 		case 6:
 			// hard characters written in the expression itself (its only transport is one process
 			// argument): C0 controls, ESC, DEL, C1 controls, line separators, a byte order mark - verbatim
@@ -960,6 +963,11 @@ func TestC18Slices(t *testing.T) {
 				n++
 			}
 		}
+	}
+	// a nil element is a null element: the right-hand side is evaluated on it (length(null) is an error)
+	for _, e := range []string{"Items[*].length(Name)", "Items[*].length(Tags)", "Items[*].[length(Name)]", "Items[*].{n: length(Name)}", "Items[:3].length(Name)", "Items[].length(Name)", "Items[?@].length(Name)", "Items[*].Name", "Items[*].[Name]", "Items[2].length(Name)", "Items[*].Tags[0]", "length(Items[2])", "Items[*] | [*].Name"} {
+		run(t, Case{Property: "C18", Kind: "hwequiv", Expr: e})
+		n++
 	}
 	// a slice (or projection) of a typed slice whose right-hand side slices another typed slice,
 	// two and three levels deep, side by side and after pipes (buffers lent to one level and reused by the next)
